@@ -35,10 +35,12 @@ Definition class_code (r : race_obs) : N :=
   else if mem_str st ["cuckooSentCache"; "CuckooTraceChecker"; "keptTraceCacheEntry"; "KeptReasonsCache"] then 10
   else if mem_str st ["fileConfig"] then 11
   else if mem_str st ["ConfigWatcher"] then 12
-  else if mem_str st ["InMemCollector"; "CollectorWorker"; "StressRelief"] then 13
+  else if mem_str st ["InMemCollector"; "CollectorWorker"; "StressRelief"; "SamplerFactory"] then 13
   else if mem_str st ["DirectTransmission"; "eventBatch"] then 14
   else if mem_str st ["RedisPubsubPeers"] then 15
-  else if mem_str st ["Router"] then 16
+  else if mem_str st ["Router"; "environmentCache"] then 16
+  else if mem_str st ["MultiMetrics"; "Health"; "LocalPubSub"; "LocalSubscription"; "GoRedisPubSub";
+                      "GoRedisSubscription"; "DeterministicSharder"; "SetWithTTL"; "MapWithTTL"; "usageTracker"] then 20
   else 17.
 
 Fixpoint dedup (l : list N) : list N :=
